@@ -1,7 +1,9 @@
 (* E1 — lifecycle / safety invariants of the executor model (statements: Model/ExecInv.v, [inv_life]).
    The inductive invariant is [inv_life'] (pointwise form of L1..L9 plus three auxiliary clauses);
    [inv_life'_life] derives [inv_life] from it.  Main results: [life_inv_reachable], [step_no_panic],
-   [run_no_panic] and the shutdown-cascade corollaries at the end of ExecLife2.v. *)
+   [run_no_panic] and the shutdown-cascade corollaries at the end of this file.
+   [inv_life] alone is not inductive ([inv_life_alone_not_inductive]), hence [life_inv_step] is stated for
+   [inv_life']. *)
 From Coq Require Import List ZArith Bool Arith Lia.
 From FB Require Import Model.Exec Model.TraceSpec Model.ExecInv Proofs.ExecLifeBase.
 Import ListNotations.
@@ -1066,3 +1068,54 @@ Proof.
     rewrite Nat.eqb_refl in Hown. discriminate.
   - intros n Hn. destruct (Hnode n Hn) as (a & _ & c). auto.
 Qed.
+
+(* a node with zero workers never runs its once and never drains its channel, even on a clean end *)
+Definition zw_net : net :=
+  [ {| nid := 1; nkind := KSync; nworkers := 1; ncap := 1; ndisc := false; nkids := [1]; nhandler := None; nrole := RRoot |};
+    {| nid := 2; nkind := KSync; nworkers := 0; ncap := 1; ndisc := false; nkids := []; nhandler := None; nrole := RChild |} ].
+Definition zw_sch : list action :=
+  [SrcEmit 5; MainSend; Deq 0 0; Return 0 0 (ORes [7%Z]); SendW 0 0; SrcReturnNil; MainSeeClosed; MainCloseRoots;
+   SeeClosed 0 0; LastOut 0 0; OnceEnter 0 0; ShutdownReturn 0 0; CloseKids 0 0; MainWgDone].
+Example clean_done_zero_workers :
+  wf_net zw_net = true
+  /\ exists s, run zw_net 1 (init zw_net) zw_sch = Ok s /\ mn s = MDone /\ timedout s = false
+       /\ once (node s 1) = ONone /\ q (node s 1) = [(7%Z, 0%Z)] /\ closed (node s 1) = true.
+Proof. split; [reflexivity|]. eexists. split; [vm_compute; reflexivity|]. vm_compute. auto. Qed.
+
+(* [inv_life] (with [inv_shape], on a well-formed net) is not inductive by itself: a state where one worker
+   is past WaitGroup.Wait while another is still idle satisfies it, and OnceEnter then breaks L1.  The
+   auxiliary clause [nx1] of [inv_life'] excludes such states. *)
+Definition ni_net : net :=
+  [ {| nid := 1; nkind := KSync; nworkers := 2; ncap := 1; ndisc := false; nkids := []; nhandler := None; nrole := RRoot |} ].
+Definition ni_state : state :=
+  {| nodes := [ {| q := []; closed := true; ws := [WWaited; WIdle]; once := ONone; inflight := []; offered := [];
+                   dropped := []; c_recv := 0; c_proc := 0; c_filt := 0; c_fail := 0; c_disc := 0 |} ];
+     cbs := []; mn := MWait; src := SClosed; clock := 0; wstart := 0; timedout := false; tr := [] |}.
+Example inv_life_alone_not_inductive :
+  wf_net ni_net = true /\ inv_shape ni_net ni_state /\ inv_life ni_net ni_state
+  /\ exists s', step ni_net 1 ni_state (OnceEnter 0 0) = Ok s' /\ ~ inv_life ni_net s'.
+Proof.
+  split; [reflexivity|]. split.
+  { split; [reflexivity|]. intros n Hn. destruct n; [reflexivity|cbn in Hn; lia]. }
+  split.
+  { unfold inv_life. repeat split; intros;
+      try (destruct n as [|n]; [|cbn in *; lia]); cbn in *; try congruence; try tauto; try discriminate.
+    all: try (exfalso; destruct w as [|[|[|w]]]; cbn in *; discriminate). }
+  eexists. split; [reflexivity|].
+  intros (L1 & _). specialize (L1 0 ltac:(cbn; lia)). cbn in L1. assert (false = true) by (apply L1; discriminate). discriminate.
+Qed.
+
+Print Assumptions life_inv_init.
+Print Assumptions life_inv_step.
+Print Assumptions shape_step.
+Print Assumptions life_inv_reachable.
+Print Assumptions step_no_panic.
+Print Assumptions run_no_panic.
+Print Assumptions shutdown_after_calls.
+Print Assumptions once_entered_stable.
+Print Assumptions kids_open_until_shutdown_returns.
+Print Assumptions pending_targets_open.
+Print Assumptions once_enter_once.
+Print Assumptions clean_done.
+Print Assumptions clean_done_zero_workers.
+Print Assumptions inv_life_alone_not_inductive.
